@@ -37,6 +37,7 @@ def gen_extension(r, name=None, small=False):
             op["binary"] = True
         elif k == "mono":
             op["body"] = g.func(1)
+            op["binary"] = r.random() < 0.25   # a static type scheme *and* the binary flag
         elif k == "poly":
             from .types import gen_poly
 
